@@ -340,7 +340,9 @@ open_dump(kdump_ctx_t *ctx)
 		ctx->shared->ops = formats[i];
 		ret = ctx->shared->ops->probe(ctx);
 		if (ret == KDUMP_OK)
-			return finish_open_dump(ctx);
+			ret = finish_open_dump(ctx);
+		if (ret == KDUMP_OK)
+			return ret;
 		if (ctx->shared->ops->attr_cleanup)
 			ctx->shared->ops->attr_cleanup(ctx->dict);
 		if (ctx->shared->ops->cleanup)
@@ -373,8 +375,47 @@ open_dump(kdump_ctx_t *ctx)
 static kdump_status
 finish_open_dump(kdump_ctx_t *ctx)
 {
+	struct attr_data *attr;
+
 	set_attr_static_string(ctx, gattr(ctx, GKI_file_format),
 			       ATTR_DEFAULT, ctx->shared->ops->name);
+
+	/* The page size hooks derive arch.page_shift and allocate the page
+	 * cache and the format's per-context buffers. They have not run
+	 * for this format if the page size was already set before the open
+	 * (the hooks of an unchanged value are skipped, arch.page_shift is
+	 * volatile, and without a format there is nothing to allocate).
+	 * Apply the value again now that the format is known.
+	 */
+	attr = gattr(ctx, GKI_page_size);
+	if (attr_isset(attr)) {
+		kdump_attr_value_t val = *attr_value(attr);
+		struct attr_flags flags = attr->flags;
+		kdump_status status;
+
+		attr->flags.isset = 0;	/* do not skip the hooks */
+		flags.isset = 0;
+		flags.indirect = 0;	/* keep the value location */
+		status = set_attr(ctx, attr, flags, &val);
+		if (status != KDUMP_OK)
+			return set_error(ctx, status,
+					 "Cannot apply page size %" KDUMP_PRIuNUM,
+					 val.number);
+	} else if (attr_isset(attr = gattr(ctx, GKI_page_shift))) {
+		/* Likewise for a page shift without page size. */
+		kdump_attr_value_t val = *attr_value(attr);
+		struct attr_flags flags = attr->flags;
+		kdump_status status;
+
+		attr->flags.isset = 0;
+		flags.isset = 0;
+		flags.indirect = 0;
+		status = set_attr(ctx, attr, flags, &val);
+		if (status != KDUMP_OK)
+			return set_error(ctx, status,
+					 "Cannot apply page shift %" KDUMP_PRIuNUM,
+					 val.number);
+	}
 
 	return KDUMP_OK;
 }
